@@ -11,7 +11,7 @@ import (
 	"github.com/bool64/cache"
 )
 
-const c15mRule = "long labelling histories: one cache name with 1-2 caches (ShardedMap / SyncMap behind a fault wrapper), N in {130, 1100, 1500, 3000} keys labelled L (a tenth also M, some labelled repeatedly), a tenth as many unlabelled keys, " +
+const c15mRule = "long labelling histories: one cache name with 1-2 caches (ShardedMap / SyncMap behind a fault wrapper), N in {130, 1100, 1500, 3000} keys labelled L (a tenth also M, some labelled repeatedly; keys of unusual shape - empty, one zero byte, a prefix of others, binary, long - labelled at the start, in the middle or near the end), a tenth as many unlabelled keys, " +
 	"optionally a constructed xxhash64-colliding UNLABELLED partner written after a labelled key; InvalidateByLabels(L) under a context that means nothing for a delete (background, cancelled, SkipRead+TTL), optionally with the k-th Delete failing followed by a retry; " +
 	"oracle: nil => every labelled key absent from every cache, every unlabelled key (the colliding partner included) still there, count == entries actually removed; failure => error returned, count == removed so far, the retry removes the rest; " +
 	"non-trivial = more than 1280 AddLabels calls for the label, or a colliding partner, or a failure position"
@@ -99,7 +99,25 @@ func TestC15ManyKeys(t *testing.T) {
 			labelled[string(base)] = true
 		}
 
+		// keys of unusual shape (empty, a single zero byte, a prefix of other keys, binary, long) labelled
+		// somewhere in the middle of the long history
+		specials := map[int][][]byte{}
+
+		for _, sk := range [][]byte{{}, {0}, []byte("item-0000"), {0xff, 0xff}, bytes.Repeat([]byte("long-key."), 40)} {
+			if c.Weighted("special-key", 1, 1) == 1 {
+				at := []int{0, n / 2, n - 2}[c.Pick("special-at", 3)]
+				specials[at] = append(specials[at], sk)
+				c.Class("special-key-shapes-among-the-labelled")
+			}
+		}
+
 		for i := 0; i < n; i++ {
+			for _, sk := range specials[i] {
+				write(sk)
+				idx.AddLabels("many", sk, "L")
+				labelled[string(sk)] = true
+			}
+
 			k := []byte(fmt.Sprintf("item-%05d", i))
 			write(k)
 
